@@ -316,7 +316,8 @@ pub fn crashes_coarse(ctx : &Ctx, out : &mut Out)
             let nv = out.violations.len();
             let a = continue_from(out, disk, ClockMode::Coarse, clock, &cont, false, &replay, true);
             let b = continue_from(out, disk, ClockMode::Coarse, clock, &cont, true, &replay, false);
-            if out.violations.len() == nv && a != b
+            let _ = nv;
+            if a != b
             {
                 let idx = a.iter().zip(b.iter()).position(|(x, y)| x != y).unwrap_or(0);
                 out.violation("C11:crash-poisons-shortcut-coarse-clock", format!("killed before `{}` under the coarse clock: build #{} of the continuation gives {} with the saved table and {} with the table erased (or different files)", what, idx, a.get(idx).map(|x| x.0.clone()).unwrap_or_default(), b.get(idx).map(|x| x.0.clone()).unwrap_or_default()), replay.clone());
